@@ -212,7 +212,7 @@ def traversal_tie(ctx, replay):
     fixed = None
     if replay:
         d = replay["data"]
-        fixed = (d["spec"], d["initial_pools"], d["schedule"])
+        fixed = (d["spec"], d["initial_pools"], d["schedule"], d.get("terminated", True))
     n = 0 if fixed else (300 if ctx.thorough else 36)
     cases = travgen.run_batch(ctx, n, ["retry", "retry", "contention"], "c10trav", fixed=fixed)
     bad = [c for c in cases if not c["agrees"]]
